@@ -142,7 +142,7 @@ ROUND9 = {
  "C02": "Plus 2/8 cases on the REAL coordinator and sidecar binaries (engine E7): a job with multi-valued params, a non-canonical path and relabel rules that rewrite path, a param and a label; the labels from the generated file and the request arriving at each target are compared with the vendored Prometheus run on the coordinator's file.",
  "C03": "One closed-loop case in six runs in K8s mode next to two more StatefulSets of the same selector.",
  "C05": "The closed loop also follows moves whose in-transfer mark was lost (destination given the target while the in-sync source goes on listing it), with a directed case that drops the marking POST in the cycle the move begins.",
- "C08": "Plus 1/4 closed loops over real api.Get/api.Post with one shard of 7000-16000 targets (status answer above 1.5 MiB) that is reachable but out of sync for two cycles.",
+ "C08": "Plus 1/4 closed loops over real api.Get/api.Post with one shard of 9000-16500 targets (status answer above 1.25 MiB) that is reachable but out of sync for two cycles.",
  "C11": "A third of the assigned targets carry labels under the reserved prefix, their own interval/timeout, extra params and temporary labels; every assigned label must be in the generated static entry.",
  "C12": "Per shape, targets that pick the content coding from the request's Accept-Encoding (deflate, else gzip, else identity).",
  "C14": "The real-process cases also push a configuration with a drop rule while the stub Prometheus answers 500 to /-/reload; the counts of the following scrapes must be those under the rules of the configuration the sidecar reports.",
